@@ -504,7 +504,7 @@ func (e *escaper) escapeTemplate(c context, n *parse.TemplateNode) context {
 // from template names mangled with different contexts.
 func mangle(c context, templateName string) string {
 	// The mangled name for the default context is the input templateName.
-	if c.state == stateText {
+	if c.state == stateText && len(c.element.names) == 0 {
 		return templateName
 	}
 	s := templateName + "$htmltemplate_" + c.state.String()
@@ -516,6 +516,17 @@ func mangle(c context, templateName string) string {
 	}
 	if c.element.name != "" {
 		s += "_" + c.element.String()
+	}
+	// Further parts of the context that decide how the actions of the template are
+	// sanitized. They are left out when empty, which keeps the usual names short.
+	if c.linkRel != "" {
+		s += "_rel(" + strings.TrimSpace(c.linkRel) + ")"
+	}
+	if len(c.element.names) > 0 {
+		s += "_elements(" + strings.Join(c.element.names, ",") + ")"
+	}
+	if len(c.attr.names) > 0 {
+		s += "_attrs(" + strings.Join(c.attr.names, ",") + ")"
 	}
 	if c.nameOpen {
 		s += "_nameOpen"
